@@ -161,7 +161,12 @@ class Cell(object):
         return hash(
             (
                 # Including class name to ensure cumulative and incremental are distinct
-                self.__class__.__name__,
+                # (Cell and CumulativeCell compare equal, so they must hash alike)
+                (
+                    "Cell"
+                    if self.__class__.__name__ == "CumulativeCell"
+                    else self.__class__.__name__
+                ),
                 self._period_start,
                 self._period_end,
                 self._evaluation_date,
